@@ -59,6 +59,8 @@ def lib_eq(ctx, p, q, trees, what):
         key = "raised:%s@%s" % (type(e).__name__, where_raised(e))
         if any(has_exists(t) for t in trees):
             key = "exists-unmodelled"
+        elif isinstance(e, ValueError) and "satisfiable with the same object type" in str(e) and where_raised(e).startswith("patterns.py"):
+            key = "cross-type-and-refused"
         ctx.violation(key, "equivalent_patterns raised %s on valid patterns (%s): %s" % (type(e).__name__, what, str(e)[:120]),
                       {"pattern1": p, "pattern2": q, "exception": repr(e)[:300], "raised_in": where_raised(e)})
         return None
@@ -71,6 +73,11 @@ def simple_path(rng, t=None):
     steps = [("k", rng.choice(["name", "size", "pid", "x_prop", "dst_port", "created", "mime_type", "is_hidden"]))]
     if rng.random() < 0.25:
         steps.append(("k", rng.choice(["inner", "value", "n1"])))
+    elif rng.random() < 0.25:
+        # index steps and keys that look like them (quoted in the text)
+        steps.append(rng.choice([("i", 0), ("i", 1), ("i", "*"), ("k", "*"), ("k", "1"), ("k", "0")]))
+        if rng.random() < 0.5:
+            steps.append(("k", rng.choice(["inner", "name"])))
     return (t, tuple(steps))
 
 
@@ -169,7 +176,9 @@ def perturb_const(rng, c):
 
 RIGHT = ["commute", "reassociate", "dup-or", "absorb", "distribute", "set-reorder", "numeric-equal", "neq-vs-not-eq"]
 WRONG = ["dup-and", "commute-followedby", "flip-not", "perturb-constant", "perturb-operator", "distribute-qualifier", "merge-observations",
-         "drop-operand", "perturb-qualifier", "and-to-or", "absorb-wrong"]
+         "drop-operand", "perturb-qualifier", "and-to-or", "absorb-wrong", "perturb-path-step"]
+STEP_SWAPS = {("i", "*"): [("k", "*"), ("i", 0)], ("k", "*"): [("i", "*")], ("i", 0): [("k", "0"), ("i", "*"), ("i", 1)], ("i", 1): [("k", "1"), ("i", "*"), ("i", 0)],
+              ("k", "0"): [("i", 0)], ("k", "1"): [("i", 1)]}
 
 
 def rewrite(rng, e, kind):
@@ -258,6 +267,15 @@ def rewrite(rng, e, kind):
             new = ("cmp", s[1], s[2], not s[3], s[4])
         elif kind == "perturb-constant" and k == "cmp":
             new = s[:4] + (perturb_const(rng, s[4]),)
+        elif kind == "perturb-path-step" and k == "cmp":
+            t_, steps = s[1]
+            idx = [j for j, st in enumerate(steps) if tuple(st) in STEP_SWAPS and j > 0]
+            if idx:
+                j = rng.choice(idx)
+                ns = list(steps)
+                ns[j] = rng.choice(STEP_SWAPS[tuple(steps[j])])
+                if not (ns[j][0] == "i" and ns[j - 1][0] == "i"):
+                    new = ("cmp", (t_, tuple(ns))) + tuple(s[2:])
         elif kind == "perturb-operator" and k == "cmp" and s[2] in ("<", ">", "<=", ">=", "=", "!="):
             alt = {"<": "<=", ">": ">=", "<=": "<", ">=": ">", "=": ">=", "!=": "<"}[s[2]]
             if not (alt in ("<", ">", "<=", ">=") and s[4][0] == "bool"):
@@ -349,6 +367,13 @@ def shape_for(rng, kind):
         return ("obs", ("and", [("cmp", simple_path(rng, t), "IN", rng.random() < 0.3, c), simple_cmp(rng, t)]))
     if kind == "numeric-equal":
         return ("obs", ("cmp", simple_path(rng, t), rng.choice(["=", "<", ">="]), False, ("int", rng.randrange(0, 1000))))
+    if kind == "perturb-path-step":
+        step = rng.choice(list(STEP_SWAPS))
+        path = (t, (("k", rng.choice(["x_prop", "name", "values"])), step) + ((("k", "inner"),) if rng.random() < 0.5 else ()))
+        c = ("cmp", path, rng.choice(["=", "!=", ">", "MATCHES"]), rng.random() < 0.2, ("int", 1))
+        if c[2] == "MATCHES":
+            c = c[:4] + (("str", "^a"),)
+        return ("obs", ("and", [c, simple_cmp(rng, t)])) if rng.random() < 0.5 else ("obs", c)
     return simple_obs(rng, rng.choice([1, 1, 2, 2]))
 
 
@@ -462,6 +487,10 @@ def wl_totality(ctx, rng, i):
         elif op == ">" and c[0] == "bool":
             c = ("int", 5)
         a = ("obs", ("cmp", (t, tuple(steps)), op, rng.random() < 0.3, c))
+    if rng.random() < 0.05:
+        # comparisons on different object types joined by AND inside one observation: valid by the grammar, never matching
+        a = ("obs", ("and", [simple_cmp(rng, "file"), simple_cmp(rng, "process")] + ([simple_cmp(rng, "file")] if rng.random() < 0.3 else [])))
+        ctx.count("cross_type_and_patterns")
     at, bt = prepare(rng, a), prepare(rng, b)
     if not at or not bt:
         ctx.skip("generator error")
@@ -485,11 +514,69 @@ def wl_totality(ctx, rng, i):
                 ctx.violation("version-dependent-answer", "equivalent_patterns answers %s under 2.1 and %s under 2.0 for patterns both grammars accept" % (r, r20),
                               {"pattern1": at, "pattern2": bt})
         except Exception as e:
-            ctx.violation("raised:%s@%s" % (type(e).__name__, where_raised(e)), "equivalent_patterns(stix_version='2.0') raised %s" % type(e).__name__,
+            key20 = "raised:%s@%s" % (type(e).__name__, where_raised(e))
+            if isinstance(e, ValueError) and "satisfiable with the same object type" in str(e):
+                key20 = "cross-type-and-refused"
+            ctx.violation(key20, "equivalent_patterns(stix_version='2.0') raised %s" % type(e).__name__,
                           {"pattern1": at, "pattern2": bt, "exception": repr(e)[:300]})
     ctx.count("totality_pairs")
     if r:
         ctx.count("random_pair_true")
+
+
+RESPELL4 = [("10", "0.0.0.10"), ("1.2.3.004", "1.2.3.4"), ("198.51.100.7/32", "198.51.100.7"), ("10.1.2.3/8", "10.0.0.0/8"), ("127.1", "127.0.0.1"),
+            ("0x7f.0.0.1", "127.0.0.1"), ("198.51.100.77/24", "198.51.100.0/24"), ("1.2.3.4", "01.02.03.04")]
+RESPELL6 = [("2001:db8:0:0::1", "2001:db8::1"), ("2001:DB8::1", "2001:db8::1"), ("2001:db8::1/128", "2001:db8::1"), ("2001:db8::1:2/112", "2001:db8::1:0/112"),
+            ("::ffff:1.2.3.4", "::ffff:102:304"), ("2001:db8::0:1", "2001:db8::1")]
+RESPELLK = [("HKEY_LOCAL_MACHINE\\\\Foo\\\\S+", "hkey_local_machine\\\\foo\\\\s+"), ("\\S+", "\\s+"), ("^HKLM\\\\\\D", "^hklm\\\\\\d"), ("[A-Z]+", "[a-z]+"), ("\\W", "\\w")]
+
+
+def wl_specials(ctx, rng, i):
+    """Soundness on the specially canonicalised paths, for the operators whose meaning is plain string comparison / pattern
+    matching: a respelled operand (another spelling of the same address, another letter case) is a different operand there."""
+    fam = ["v4", "v6", "key"][i % 3]
+    if fam == "v4":
+        path, (c1, c2) = ("ipv4-addr", (("k", "value"),)), rng.choice(RESPELL4)
+        op = rng.choice(["MATCHES", "LIKE", "<", ">", "<=", ">="])
+    elif fam == "v6":
+        path, (c1, c2) = ("ipv6-addr", (("k", "value"),)), rng.choice(RESPELL6)
+        op = rng.choice(["MATCHES", "LIKE", "<", ">", "<=", ">="])
+    else:
+        path = ("windows-registry-key", rng.choice([(("k", "key"),), (("k", "values"), ("i", rng.choice([0, "*"])), ("k", "name"))]))
+        c1, c2 = rng.choice(RESPELLK)
+        op = "MATCHES"       # letter case of keys is the library's documented reading for =, LIKE and ordering; a regular expression is not a key
+    if rng.random() < 0.5:
+        c1, c2 = c2, c1
+    neg = rng.random() < 0.2
+    a = ("cmp", path, op, neg, ("str", c1))
+    b = ("cmp", path, op, neg, ("str", c2))
+    ctxt = rng.choice(["bare", "and", "or", "obs-and"])
+    other = ("cmp", (path[0], (("k", "x_other"),)), "=", False, ("int", rng.randrange(5)))
+    wrap = {"bare": lambda x: ("obs", x), "and": lambda x: ("obs", ("and", [x, other])), "or": lambda x: ("obs", ("or", [other, x])),
+            "obs-and": lambda x: ("oand", [("obs", x), simple_obs(rng, 0)])}[ctxt]
+    fixed_rng_state = rng.getstate()
+    p = wrap(a)
+    rng.setstate(fixed_rng_state)
+    q = wrap(b)
+    ptxt, qtxt = prepare(rng, p), prepare(rng, q)
+    if not ptxt or not qtxt:
+        ctx.skip("generator error")
+        return
+    ans = lib_eq(ctx, ptxt, qtxt, [p, q], "special respelling")
+    ctx.count("special_pairs")
+    ctx.see("special families", "%s:%s" % (fam, op))
+    ctx.nontrivial("special", fam, op, c1, c2, ctxt, neg)
+    if ans:
+        verdict, detail = audit(ctx, p, q, ptxt, qtxt, rng, "special-respelling")
+        ctx.ev()
+        if verdict == "separated":
+            ctx.violation("unsound:special-respelling:%s" % ("regular-expression" if op == "MATCHES" else "like" if op == "LIKE" else "ordering"),
+                          "operands %r and %r of %s on %s are treated as the same, but they match different values" % (c1, c2, op, path[0]),
+                          dict({"pattern1": ptxt, "pattern2": qtxt}, **detail))
+        elif verdict == "same":
+            ctx.count("special_true_answers_confirmed")
+    else:
+        ctx.count("special_pairs_kept_apart")
 
 
 def relation_pool(rng):
@@ -588,6 +675,7 @@ def wl_relation(ctx, rng, i):
 
 WORKLOADS = [
     Workload("relation", wl_relation, quick=40, thorough=2000),
+    Workload("specials", wl_specials, quick=150, thorough=6000),
     Workload("rewrites", wl_rewrites, quick=350, thorough=40000),
     Workload("totality", wl_totality, quick=500, thorough=60000),
 ]
@@ -606,6 +694,8 @@ def floors(m, tier):
         out.append("fewer than 300 totality pairs")
     if c.get("relation_pools", 0) < 20 or c.get("relation_true_verdicts", 0) < 20:
         out.append("fewer than 20 literal-sharing pools judged as a relation, or fewer than 20 True verdicts among them")
+    if c.get("special_pairs", 0) < 100:
+        out.append("fewer than 100 respelled special-path pairs")
     if c.get("triples", 0) < 20:
         out.append("fewer than 20 transitivity triples")
     kinds = m["seen"].get("rewrite kinds", set())
